@@ -152,7 +152,7 @@ def run_path(I, c, fn, module, res):
                     # parameters: entry references; other names: the live locals at the yield
                     yf = Frame(dict(pf.env), I.live_frame(node) or fr, func=sf)
                     for i, e in enumerate(c.each_yield):
-                        g = I.as_goal(I.pure_eval(e, yf, {'value': v}))
+                        g = I.goal(e, yf, {'value': v})
                         ctx.oblige(I.oname('yield', node.lineno, i), g, 'yield', node.lineno)
                 finally:
                     I.old_frame = prev
@@ -187,7 +187,7 @@ def run_path(I, c, fn, module, res):
             res.normal_exits += 1
             result = outcome[1]
             for i, e in enumerate(c.ensures):
-                g = I.as_goal(I.pure_eval(e, pf, {'result': result}))
+                g = I.goal(e, pf, {'result': result})
                 ctx.oblige(I.oname('post', None, i), g, 'post')
             for k, (cond, e) in c.sets_if.items():
                 slf = pf.env.get('self')
@@ -237,8 +237,13 @@ def run_path(I, c, fn, module, res):
 RECDEFS = {}       # name -> callable(app term) -> list of ground unfolding facts
 
 
-def register_recdef(name, unfold):
+FORWARD = set()    # recursive specs whose successor term (last argument + 1) is unfolded too
+
+
+def register_recdef(name, unfold, forward=False):
     RECDEFS[name] = unfold
+    if forward:
+        FORWARD.add(name)
 
 
 def _walk(fs):
@@ -283,6 +288,15 @@ def ground_facts(fs, byte_arrays=()):
                 selects.append(t)
             elif k == z3.Z3_OP_UNINTERPRETED and n in RECDEFS:
                 recapps.append(t)
+    succ = []
+    for t in recapps:
+        if not _has_var(t) and t.decl().name() in FORWARD:
+            # the definition at the next index: needed when the successor only appears under a
+            # quantifier (entry j's length is off(j+1) - off(j))
+            a = [t.arg(i) for i in range(t.num_args())]
+            succ.append(t.decl()(*(a[:-1] + [z3.simplify(a[-1] + 1)])))
+    have = {t.get_id() for t in recapps}
+    recapps = recapps + [t for t in succ if t.get_id() not in have]
     for t in recapps:
         if _has_var(t):
             continue
